@@ -696,7 +696,7 @@ PROPS["C05"] = {
     "extra": c05_extra,
     "theorems": ["C05_select", "C05_textarea", "C05_input_checkbox", "C05_input_radio", "C05_input_other_static", "C05_input_no_type",
                  "C05_input_dynamic_type", "C05_listener_assigns_target", "C05_component_default", "C05_component_modifiers",
-                 "C05_component_static_arg", "C05_element_binding", "C05_models_sequence", "C05_models_entry_plain", "C05_models_entry_any", "C05_models_entry_underscore", "C05_array_argument_keeps_suffix_modifiers"],
+                 "C05_component_static_arg", "C05_element_binding", "C05_models_sequence", "C05_models_entry_plain", "C05_models_entry_any", "C05_models_entry_underscore", "C05_array_argument_keeps_suffix_modifiers", "C05_unassignable_target_reported"],
     "cases": c05_cases,
     "explanation": "oracle: on every element carrying v-model(s) the denoted props (value prop, modifiers prop, onUpdate listener assigning to the target) and directive bindings (vModelText/Checkbox/Radio/Select/Dynamic by host and type) equal those evaluated from the real output; v-models is expanded to the same-order v-model sequence in the denotation",
 }
@@ -1380,7 +1380,9 @@ PROPS["C09"] = {
 
 
 # ---- C07 / C08: the malformed-usage stream --------------------------------------------------------------------
-ODD_ATTRS = ["a=<b/>", "a=<></>", "a=<b c={<d/>}>t</b>", "class=<i/>", "v-foo", "v-show", "v-html", "v-text", "v-model", "v-models", "v-slots", "vFoo",
+ODD_ATTRS = ["v-model={x + 1}", "v-model={f()}", "v-model={x?.y}", "v-model={'s'}", "v-model={[x + 1, 'a']}", "v-model={(x)}", "v-model={(x.y)}", "v-model={this}", "v-model={c ? a : b}",
+             "v-model={[a, b] = c}", "v-model={x!}", "v-model={x as any}", "v-models={[[x + 1], [f(), 'a']]}", "v-model={a?.[0]}", "v-model={new X}", "v-model={`t`}", "v-model={-x}",
+             "a=<b/>", "a=<></>", "a=<b c={<d/>}>t</b>", "class=<i/>", "v-foo", "v-show", "v-html", "v-text", "v-model", "v-models", "v-slots", "vFoo",
              "v-foo={[]}", "v-foo={[,]}", "v-foo={[...xs]}", "v-foo={[x, ...ys]}", "v-foo={[x, , ['m']]}", "v-model={[]}", "v-model={[, 'a']}", "v-model={[...xs]}",
              "v-models={[]}", "v-models={x}", "v-models={[[x], y, ...zs, [,]]}", "v-models", 'v-models="s"', "v-foo={[x, ['a-b', '1x', 'ok']]}", "v-foo_a-b={x}", "v-foo_1x_ok={x}",
              "v-model={[x, ['a b', 'c.d']]}", "v-model_a-b={x}", 'v-html="s"', "v-html=<b/>", "v-text=<></>", "v-html={[]}", "v-text={[...xs]}", 'v-model="s"',
